@@ -219,3 +219,50 @@ pub fn run_dlv(id: &str, rest: &str) -> String {
         Err(e) => format!("{} {}", id, err_kind(&e)),
     }
 }
+
+// ---------------------------------------------------------------------------------------
+// FAIL: a user sink that fails at its k-th call while a stream is written.
+// Case: FAIL <id> <kspec> <s|m> <cfg> <rate> <ch> <bps> <bs> <samples>
+//   kspec = a<k> (absolute call index) | p<permille> (k = total_calls * permille / 1000)
+use crate::usersink::UserSink;
+
+pub fn gen_fail(seed: u64, n: usize, out: &mut String) {
+    let mut r = Rng::new(seed ^ 0xFA11);
+    let mut i = 0;
+    while i < n {
+        let mut c = sig::gen_valid_cfg(&mut r);
+        let (rate, ch, bps, bs, s) = gen_input(&mut r, true);
+        if s.len() > 1500 { continue; }
+        c.bs = bs;
+        let samples = sig::fmt_samples(&s);
+        let mode = if r.chance(1, 3) { "m" } else { "s" };
+        for _ in 0..6 {
+            let kspec = match r.below(4) { 0 => format!("a{}", r.below(60)), 1 => "p1000".to_string(), _ => format!("p{}", r.below(1000)) };
+            writeln!(out, "FAIL f{} {} {} {} {} {} {} {} {}", i, kspec, mode, c.encode(), rate, ch, bps, bs, samples).unwrap();
+            i += 1;
+        }
+    }
+}
+
+pub fn run_fail(id: &str, rest: &str) -> String {
+    let t: Vec<&str> = rest.splitn(3, ' ').collect();
+    let (kspec, mode) = (t[0], t[1]);
+    let mut c = parse(t[2]);
+    if mode == "m" { c.cfg.mt = true; c.cfg.workers = Some(2); }
+    let stream = match encode(&c) { Ok(s) => s, Err(e) => return format!("{} enc-{}", id, e) };
+    let mut probe = UserSink::new(None); probe.record_ops = false;
+    if stream.write(&mut probe).is_err() { return format!("{} probe-err", id); }
+    let total = probe.ops.len();
+    let k = if kspec.starts_with('a') { kspec[1..].parse::<usize>().unwrap() } else { total * kspec[1..].parse::<usize>().unwrap() / 1000 };
+    let mut sink = UserSink::new(Some(k));
+    let r = stream.write(&mut sink);
+    let verdict = match r {
+        Ok(()) => "ok".to_string(),
+        Err(flacenc::error::OutputError::Sink(_)) => "err-sink".to_string(),
+        Err(_) => "err-other".to_string(),
+    };
+    // accepted calls: too long to print in full; print count, a digest of the calls and the bits
+    let mut h: u64 = 0xcbf29ce484222325;
+    for o in &sink.ops { for b in o.bytes() { h ^= b as u64; h = h.wrapping_mul(0x100000001b3); } h ^= 0x20; h = h.wrapping_mul(0x100000001b3); }
+    format!("{} {} k={} total={} accepted={} calls={:016x} bits={}", id, verdict, k, total, sink.ops.len(), h, sink.bits.len())
+}
